@@ -234,6 +234,55 @@ def check_lineage(crate, rep, cfg):
 
 # --------------------------------------------------------------------------------------------------------------- VM
 
+def check_current_block(vm, crate, rep, tr, region):
+    inner = [bb for bb, t in vm.calls(sorted(region)) if VM in callee_names(t)]
+    writes = []     # (bb, value leaves, is_replace)
+    for bb, idx, st in vm.stmts(sorted(region)):
+        if idx != "t" and st.get("k") == "assign" and pl_projs(st["pl"])[-1:] == [".current_block_name"]:
+            writes.append((bb, tr._rv(st["rv"], (), set(), 0, bb, idx), False))
+    for bb, t in vm.calls(sorted(region)):
+        if callee_def(t).rsplit("::", 1)[-1] in ("replace", "insert", "take") and t["args"] and \
+                any(last_field(l.projs) == ".current_block_name" for l in tr.operand(t["args"][0]) if l.kind == "param"):
+            writes.append((bb, tr.operand(t["args"][1]) if len(t["args"]) > 1 else set(), True))
+    before = [w for w in writes if inner and all(vm.dominates(w[0], i) for i in inner)]
+    after = [w for w in writes if w not in before]
+    ok = bool(inner) and len(before) == 1 and bool(after)
+    why = "%d writes of State.current_block_name before and %d after the nested run" % (len(before), len(after))
+    if ok:
+        ent = before[0]
+        el = through(tr, ent[1])
+        ok = bool(el) and all("as:RenderBlock" in l.projs for l in el)
+        why = "the name made current is not the opcode's block name"
+    if ok:
+        pops = [bb for bb, t in vm.calls(sorted(region)) if callee_def(t).endswith("Vec::<T, A>::pop") and any(".blocks" in l.projs for l in tr.operand(t["args"][0]))]
+        for bb, leaves, _ in after:
+            for l in through(tr, leaves):
+                if l.kind == "cycle":
+                    continue
+                saved = l.kind == "call" and l.detail[2] == ent[0] and ent[2]
+                top = False
+                if l.kind == "call" and l.detail[0].endswith("<impl [T]>::last") or (l.kind == "call" and l.detail[0].rsplit("::", 1)[-1] in ("map", "copied", "cloned")):
+                    # blocks.last() (possibly .map(|b| b.0)) evaluated after the pop
+                    cb = l.detail[2]
+                    t2 = vm.term(cb)
+                    src = tr.operand(t2["args"][0])
+                    lasts = [cb] if l.detail[0].endswith("<impl [T]>::last") else [x.detail[2] for x in src if x.kind == "call" and x.detail[0].endswith("<impl [T]>::last")]
+                    top = bool(lasts) and bool(pops) and all(any(lb in vm.reach_from(pb) and lb != pb and pb not in vm.reach_from(lb, removed_blocks=frozenset(
+                        bb2 for bb2, t3 in find_calls(vm, ["parsing::instructions::Chunk::get"]))) for pb in pops) for lb in lasts)
+                if not (saved or top):
+                    ok = False
+                    why = "what is put back at %s is neither the value saved on entry nor the top of the block stack after the pop (%s)" % (vm.where(bb), leaf_str(l))
+        if ok:
+            heads = {bb for bb, t in find_calls(vm, ["parsing::instructions::Chunk::get"])}
+            for i in inner:
+                reach = vm.reach_from(i, removed_blocks=frozenset(w[0] for w in after))
+                if (reach & heads) or any(vm.term(x)["k"] == "return" for x in reach):
+                    ok = False
+                    why = "the enclosing block's name is not put back on every path after the nested run"
+    rep.add("C04.VM", "C04.VM:RenderBlock:current-block-saved-and-restored", ok, vm.where(inner[0]) if inner else vm.where(0), "RenderBlock makes its block the current one "
+            "(what super() resolves against) for the nested run and puts the enclosing block's name back before anything else runs" + ("" if ok else " — VIOLATED: " + why))
+
+
 def check_vm(crate, rep, cfg):
     vm = crate.one(VM)
     rep.analysed(vm)
@@ -265,6 +314,9 @@ def check_vm(crate, rep, cfg):
         ok = bool(lv) and all(l.kind == "const" and str(l.detail[1]) == "0" for l in lv)
     rep.add("C04.VM", "C04.VM:RenderBlock:level-0", ok, vm.where(pushes[0][0]) if pushes else vm.where(0), "RenderBlock pushes (name, lineage, 0) on the active-block stack"
             + ("" if ok else " — VIOLATED"))
+    # the name super() resolves against: RenderBlock makes its block the current one for the nested run and puts the enclosing block's
+    # name back afterwards, on every path — either the value saved on entry, or the top of the active-block stack read AFTER the pop
+    check_current_block(vm, crate, rep, tr, region)
     # super(): the arm region is the part of CallFunction guarded by name == "super"
     cf = vm_arm(vm, crate, "CallFunction")
     sup_t = []
